@@ -2467,3 +2467,264 @@ def run_fragadopt(prog, ctx=None):
                    "" if ok else "`%s` makes the fragment at %s the base part, and a path reaches the end of %s without moving %s->cont past it: the fragment is base part and first continuation fragment at once, its bytes are read twice" % (
                        norm(show(n, f))[:100], kind[2], f.name, m["d"]["n"]))
     return res
+
+
+def run_lazyread(prog, ctx=None):
+    """LAZYREAD: a file-level table pointer that is created on first use (`if (!table) init();` with init() storing it) is read
+    by a function only behind such a test of that table in the same function (or, for a file-local helper, in front of every
+    call of it) - the functions that create or release the table themselves excepted.  A reader that only looks whether the table exists (and skips its work when it does not)
+    depends on which lookup the process happened to make first."""
+    from .ival import global_effects
+    res = Result("LAZYREAD")
+    files = set(ctx.get("files", [])) if ctx else None
+    ge = global_effects(prog)
+    fs = funcs_of(prog, files)
+    lazy = {}        # (file, global name) -> set of init function keys
+    guards = {}      # function key -> {global name: [block ids]}
+    for f in fs:
+        for bid, b in f.blocks.items():
+            if not b.term or b.term.get("cond") is None or len(b.succ) != 2:
+                continue
+            c = strip(b.term["cond"], all_casts=True)
+            if b.term.get("cls") == "BinaryOperator":
+                if c.get("k") == "bin" and c.get("op") in ("&&", "||"):
+                    c = strip(c["a"], all_casts=True)
+            else:
+                while c.get("k") == "bin" and c.get("op") in ("&&", "||"):
+                    c = strip(c["b"], all_casts=True)
+            if not (c.get("k") == "un" and c.get("op") == "!"):
+                continue
+            g = strip(c["e"], all_casts=True)
+            if g.get("k") == "bin" and g.get("op") == "=":
+                g = strip(g["b"], all_casts=True)
+            if not (g.get("k") == "ref" and g["d"].get("dk") == "global" and b.succ[0] is not None):
+                continue
+            for e in f.blocks[b.succ[0]].el:
+                if e.get("k") == "call" and e.get("fn", {}).get("inroot"):
+                    for cal in prog.resolve_call(f, e):
+                        if (f.file, g["d"]["n"]) in ge.get(cal.key(), {}):
+                            lazy.setdefault((f.file, g["d"]["n"]), set()).add(cal.key())
+                            guards.setdefault(f.key(), {}).setdefault(g["d"]["n"], []).append(bid)
+    for f in fs:
+        dom = None
+        for (file, gname), inits in sorted(lazy.items()):
+            if file != f.file or f.key() in inits:
+                continue
+            # functions that store the table (release / re-create it) manage it
+            if (file, gname) in ge.get(f.key(), {}) and not guards.get(f.key(), {}).get(gname):
+                direct = False
+                for b, i, n in f.walk_all():
+                    if n.get("k") == "bin" and n.get("op") == "=":
+                        l = strip(n["a"], lvalue_to_rvalue=False)
+                        if l.get("k") == "ref" and l["d"].get("dk") == "global" and l["d"]["n"] == gname:
+                            direct = True
+                if direct:
+                    continue
+            first = None
+            for b in sorted(f.blocks.values(), key=lambda b: -b.id):
+                els = list(b.el) + ([b.term["cond"]] if b.term and b.term.get("cond") is not None else [])
+                for e in els:
+                    for n in walk(e):
+                        if n.get("k") == "ref" and n["d"].get("dk") == "global" and n["d"]["n"] == gname:
+                            gb = guards.get(f.key(), {}).get(gname, [])
+                            if b.id in gb:
+                                continue
+                            if dom is None:
+                                dom = f.dominators()
+                            if not any(x in dom[b.id] for x in gb):
+                                if first is None:
+                                    first = (b, n)
+            if first is not None and f.static:
+                # a file-local helper: every call of it sits behind the first-use test in its caller
+                sites = []
+                for g2 in fs:
+                    if g2.file != f.file or g2.key() == f.key():
+                        continue
+                    d2 = None
+                    for b2, i2, e2 in g2.elements():
+                        for n2 in walk_own(e2):
+                            if n2.get("k") == "call" and any(c2.key() == f.key() for c2 in prog.resolve_call(g2, n2)):
+                                if d2 is None:
+                                    d2 = g2.dominators()
+                                gb2 = guards.get(g2.key(), {}).get(gname, [])
+                                sites.append(any(x in d2[b2.id] and x != b2.id for x in gb2))
+                if sites and all(sites):
+                    first = None
+            reads = any(n.get("k") == "ref" and n["d"].get("dk") == "global" and n["d"]["n"] == gname for b, i, n in f.walk_all())
+            if not reads and first is None:
+                continue
+            res.ob("%s:reads %s behind its first-use test" % (f.qn, gname), first is None, f, (first[1].get("l") if first else f.line) or f.line,
+                   "" if first is None else "%s reads the table %s, which is created on first use by %s, without the first-use test in front of it: what it sees depends on the lookups made before" % (
+                       f.qn, gname, ", ".join(sorted(k[2] if isinstance(k, tuple) and len(k) > 2 else str(k) for k in inits))))
+    return res
+
+
+def run_fragzero(prog, ctx=None):
+    """FRAGZERO: a function that looks at the bytes of a fragment one by one through an index (`tmp = data[i].iov_base; ..
+    tmp[pos]`) looks at byte 0 of the fragment as well: over all indexed reads through that pointer the interval analysis
+    gives an index range that starts at 0.  A count-down that stops in front of index 0 (`while (--pos)`) makes the answer
+    depend on where the fragment borders are: the first byte of every fragment is never examined."""
+    from .ival import Analysis
+    res = Result("FRAGZERO")
+    files = set(ctx.get("files", [])) if ctx else None
+    for f in funcs_of(prog, files):
+        bases = {}
+        for b, i, n in f.walk_all():
+            pairs = []
+            if n.get("k") == "decl":
+                pairs = [(v["id"], v.get("n") or v.get("name"), v["init"]) for v in n["vars"] if v.get("init") is not None]
+            elif n.get("k") == "bin" and n.get("op") == "=":
+                l = strip(n["a"], lvalue_to_rvalue=False)
+                if l.get("k") == "ref" and "id" in l["d"]:
+                    pairs = [(l["d"]["id"], l["d"].get("n"), n["b"])]
+            for vid, name, rhs in pairs:
+                r = strip(rhs, all_casts=True)
+                if r.get("k") == "mem" and r.get("f") == "iov_base":
+                    bases[vid] = name
+        if not bases:
+            continue
+        reads = {}
+        for b, i, e in f.elements():
+            for n in walk(e):
+                if n.get("k") == "idx":
+                    a = strip(n["a"], all_casts=True)
+                    if a.get("k") == "ref" and a["d"].get("id") in bases and cval(n["i"]) is None:
+                        reads.setdefault(a["d"]["id"], []).append((b.id, i, n))
+        if not reads:
+            continue
+        an = Analysis(prog, f).run()
+        for vid, rs in sorted(reads.items()):
+            lo = None
+            for bid, i, n in rs:
+                v = an.value_at(bid, i, n["i"])
+                if v is None:
+                    lo = 0
+                    break
+                lo = v.lo if lo is None else min(lo, v.lo)
+            ok = lo is not None and lo <= 0
+            n0 = rs[0][2]
+            res.ob("%s:%s[..] reaches byte 0" % (f.qn, bases[vid] or "?"), ok, f, n0.get("l") or f.line,
+                   "" if ok else "the indexed reads `%s` of the fragment's bytes use indices from %s up: byte 0 of a fragment is never looked at" % (norm(show(n0, f)), lo))
+    return res
+
+
+def run_deadloop(prog, ctx=None):
+    """DEADLOOP: every loop of the functions in scope can be entered: the interval analysis (an over-approximation of the
+    reachable states) does not show the whole body of a loop unreachable.  A count that is computed from a value that was
+    overwritten a statement earlier (`len = len % N; parts = len / N;`) makes the loop that moves the full blocks a loop that
+    never runs: the function still returns, with part of its work not done."""
+    from .ival import Analysis
+    res = Result("DEADLOOP")
+    files = set(ctx.get("files", [])) if ctx else None
+    for f in funcs_of(prog, files):
+        loops = natural_loops(f)
+        if not loops:
+            continue
+        try:
+            an = Analysis(prog, f).run()
+        except Exception as ex:
+            res.notes.append("%s: interval analysis failed (%s)" % (f.qn, ex))
+            continue
+        for hd, body in sorted(loops.items()):
+            if not an.reachable(hd):
+                continue      # the loop itself lies in code the analysis does not reach (judged where that starts)
+            inner = [b for b in body if b != hd and (f.blocks[b].el or f.blocks[b].term)]
+            if not inner:
+                continue
+            dead = not any(an.reachable(b) for b in inner)
+            t = f.blocks[hd].term or {}
+            line = t.get("l") or f.line
+            res.ob("%s:loop %d can be entered" % (f.qn, sorted(loops).index(hd)), not dead, f, line,
+                   "" if not dead else "no state the interval analysis finds at the loop head enters the body of this loop (condition `%s`): the loop never runs" % (
+                       norm(show(t["cond"], f)) if t.get("cond") is not None else "?"))
+    return res
+
+
+def run_maxstore(prog, ctx=None):
+    """MAXSTORE: the capacity `max` of a ring queue decides where the bytes behind the storage end continue (offset 0): a
+    store that gives `max` another value is made only while the content does not wrap - on every path to it the
+    not-fragmented edge of a fragmentation test (`len > max - off` false) of that queue was taken, or mpt_queue_align(q, 0)
+    ran, with no store to len / off / max of it in between; the all-zero reset is exempt.  Growing the capacity first and
+    testing afterwards finds nothing to move: the wrapped part stays at the storage start while readers look for it behind
+    the old end."""
+    res = Result("MAXSTORE")
+    files = set(ctx.get("files", [])) if ctx else None
+    n = 0
+    for f in funcs_of(prog, files):
+        stores = []
+        for b, i, e in f.elements():
+            for m in walk_own(e):
+                if m.get("k") == "bin" and m.get("op") == "=":
+                    l = strip(m["a"], lvalue_to_rvalue=False)
+                    if l.get("k") == "mem" and l.get("f") == "max" and l.get("rec", "").split("::")[-1] in ("mpt_queue", "queue"):
+                        stores.append((b.id, i, m, l))
+        if not stores:
+            continue
+
+        def is_frag(c):
+            """`len > max - off`, `off > max - len`, `(max - len) < off` ..: the object the test is about"""
+            c = strip(c, all_casts=True)
+            if c.get("k") != "bin" or c.get("op") not in (">", "<"):
+                return None
+            big, small = (c["a"], c["b"]) if c["op"] == ">" else (c["b"], c["a"])
+            big, small = strip(big, all_casts=True), strip(small, all_casts=True)
+            if big.get("k") == "mem" and big.get("f") in ("len", "off") and small.get("k") == "bin" and small.get("op") == "-":
+                x, y = strip(small["a"], all_casts=True), strip(small["b"], all_casts=True)
+                if x.get("k") == "mem" and x.get("f") == "max" and y.get("k") == "mem" and {y.get("f"), big.get("f")} == {"len", "off"}:
+                    return norm(show(big["b"], f))
+            return None
+
+        for sb, si, sn, sl in stores:
+            n += 1
+            obj = norm(show(sl["b"], f))
+            if cval(sn["b"]) == 0:
+                res.ob("%s:%s" % (f.qn, norm(show(sn, f))[:50]), True, f, sn.get("l") or f.line)
+                continue
+            # forward may-analysis: can the store be reached in state "may wrap"?
+            IN = {bid: set() for bid in f.blocks}
+            IN[f.entry] = {"W"}
+            work = [f.entry]
+            done = {}
+            bad = False
+            while work:
+                bid = work.pop()
+                st = set(IN[bid])
+                blk = f.blocks[bid]
+                for i, e in enumerate(blk.el):
+                    if bid == sb and i == si and "W" in st:
+                        bad = True
+                    for m in walk_own(e):
+                        if m.get("k") == "call" and callee_name(m) == "mpt_queue_align" and len(m.get("args", [])) == 2 and cval(m["args"][1]) == 0:
+                            a0 = strip(m["args"][0], all_casts=True)
+                            if norm(show(a0, f)) == obj or (a0.get("k") == "un" and a0.get("op") == "&" and norm(show(a0["e"], f)) == obj):
+                                st = {"L"}
+                        if m.get("k") == "bin" and m.get("op") in ("=", "+=", "-="):
+                            l = strip(m["a"], lvalue_to_rvalue=False)
+                            if l.get("k") == "mem" and l.get("f") in ("len", "off", "max") and norm(show(l["b"], f)) == obj and not (bid == sb and m is sn):
+                                st = {"W"}
+                    if bid == sb and i == si:
+                        st = {"W"}
+                key = frozenset(st)
+                outs = []
+                fr = is_frag(blk.term["cond"]) if blk.term and blk.term.get("cond") is not None and len(blk.succ) == 2 else None
+                for k, s2 in enumerate(blk.succ):
+                    if s2 is None:
+                        continue
+                    o = st
+                    if fr == obj and k == 1:
+                        o = {"L"}
+                    outs.append((s2, o))
+                if done.get(bid) == key:
+                    continue
+                done[bid] = key
+                for s2, o in outs:
+                    if not o <= IN[s2]:
+                        IN[s2] |= o
+                        work.append(s2)
+                    elif s2 not in done:
+                        work.append(s2)
+            res.ob("%s:%s #%d" % (f.qn, norm(show(sn, f))[:50], n), not bad, f, sn.get("l") or f.line,
+                   "" if not bad else "`%s` changes the capacity on a path where the content of %s may wrap (no not-fragmented edge of a `max - len < off` test and no mpt_queue_align(.., 0) since the last change): the wrapped bytes are not where the new capacity says" % (norm(show(sn, f)), obj))
+    if n < 1:
+        raise Broken("MAXSTORE: no store to a queue capacity found")
+    return res
